@@ -138,6 +138,10 @@ class EncodingDB:
                     try:
                         cid2unicode[cid] = name2unicode(cast(str, x.name))
                     except (KeyError, ValueError) as e:
+                        # The code now selects a glyph without a Unicode
+                        # value; the character of the base encoding no
+                        # longer applies.
+                        cid2unicode.pop(cid, None)
                         log.debug(str(e))
                     cid += 1
         return cid2unicode
